@@ -21,6 +21,7 @@ namespace sdk
 {
 namespace logs
 {
+class LoggerProvider;
 
 class Logger final : public opentelemetry::logs::Logger
 {
@@ -60,6 +61,9 @@ public:
   }
 
 private:
+  // LoggerProvider looks loggers up by the name they were created with, also when they are disabled
+  friend class LoggerProvider;
+
   // The name of this logger
   std::string logger_name_;
 
